@@ -344,6 +344,7 @@ def _main(args, prop, cfg, tier, seed0, t0, scratch):
     # ---- replay + minimise one representative per unmatched group ------------
     out_replays = []
     nondeterministic = []
+    missing = []
     rdir = os.path.join(scratch, "replays")
     keepdir = os.path.join(VERIF, "replays")
     os.makedirs(keepdir, exist_ok=True)
@@ -351,7 +352,7 @@ def _main(args, prop, cfg, tier, seed0, t0, scratch):
     for (leg, cls), items in groups.items():
         items.sort(key=lambda it: it[0].get("ndecisions", 1 << 30))
         r, v = items[0]
-        src = os.path.join(rdir, "%s-%s-%d.json" % (prop, leg, r["k"]))
+        src = os.path.join(rdir, "%s-%s-%d.json" % (prop, safe_name(leg), r["k"]))
         if os.path.exists(src):
             rf = json.load(open(src))
         elif "crash" in r:
@@ -359,10 +360,12 @@ def _main(args, prop, cfg, tier, seed0, t0, scratch):
             # possible after a crash; replay by seed instead
             rf = {"prop": prop, "leg": leg, "seed": r["seed"], "tier": tier, "decisions": [], "by_seed": True}
         else:
+            # a violation without its replay file must never be dropped silently
+            missing.append((leg, cls, r.get("seed")))
             continue
         rf["violation"] = v
         rf.pop("result", None)
-        dst = os.path.join(keepdir, "%s-%s-%s-seed%d.json" % (prop, leg, cls, r["seed"]))
+        dst = os.path.join(keepdir, "%s-%s-%s-seed%d.json" % (prop, safe_name(leg), cls, r["seed"]))
         if rf.get("by_seed"):
             rf["note"] = "process crashed; reproduce with: SIM_MODE=batch SIM_SEED0=%d SIM_FIRST=%d SIM_COUNT=1" % (seed0, r["k"])
             rf["stderr"] = r["crash"]["stderr"][-4000:]
@@ -395,6 +398,10 @@ def _main(args, prop, cfg, tier, seed0, t0, scratch):
     for kid, n in sorted(known_hits.items()):
         k = [x for x in known if x["id"] == kid][0]
         log("KNOWN-FINDING: property=%s %s (%s; hit in %d events)" % (prop, k["what"], kid, n))
+    if missing:
+        for leg, cls, seed in missing:
+            log("INFRA-ERROR: violation class %s (leg %s, seed %s) was reported by a run but its replay file is missing" % (cls, leg, seed))
+        return 2
     if nondeterministic:
         for leg, cls, seed in nondeterministic:
             log("INFRA-ERROR: violation class %s (leg %s, seed %d) did not reproduce on replay: the simulator is not deterministic here" % (cls, leg, seed))
@@ -411,6 +418,10 @@ def _main(args, prop, cfg, tier, seed0, t0, scratch):
         log("note: wall-clock budget reached; %d of %d runs completed" % (len(results), total))
     log("OK property=%s tier=%s runs=%d wall=%.1fs" % (prop, tier, len(results), wall))
     return 0
+
+
+def safe_name(s):
+    return "".join(c if (c.isalnum() and c.isascii()) or c in "-." else "_" for c in s)
 
 
 def first_panic_line(err):
